@@ -116,6 +116,10 @@ def classify(ev, prefix):
         if running:
             return "execution-started-while-another-is-running"
         return "execution-started-out-of-log-order"
+    if ev.get("ev") in ("commit", "start") and any(e.get("ev") == "restart" for e in prefix[:-1]):
+        seen = {e["index"] for e in prefix[:-1] if e.get("ev") == "end"}
+        if ev.get("index") in seen:
+            return "entry-executed-again-after-restart"
     return "%s-event-rejected" % ev.get("ev")
 
 
